@@ -11,6 +11,7 @@ CONSTANTS
   TornTailFails = FALSE
   RoaringTwoWrites = FALSE
   RowOpAsync = FALSE
+  MultiSeparateWrites = FALSE
   Contentless = FALSE
 INIT Init
 NEXT Next
@@ -18,5 +19,6 @@ SYMMETRY FragPerms
 INVARIANT TypeOK
 INVARIANT RestartSucceeds
 INVARIANT AckedDurable
+INVARIANT InflightAtomicPerShard
 PROPERTY LeftoversIgnored
 CHECK_DEADLOCK FALSE
